@@ -85,7 +85,7 @@ def main(argv=None):
     pid = a.property
     seed = int(os.environ.get("VERIF_SEED", "0") or 0)
     mod = importlib.import_module(HARNESS[pid])
-    mod.execute = explore.guarded(explore.with_long(mod.execute), pid)
+    mod.execute = explore.guarded(explore.with_debug(explore.with_long(mod.execute)), pid)
     if a.replay:
         return replay(mod, pid, a.replay)
     t0 = time.time()
